@@ -199,7 +199,7 @@ def check_handler(case, ctx):
             rec.append((t, "he", r[4]))
         elif kind == "timeout":
             rec.append((t, "fire"))
-    timeout = plan["timeout"]
+    timeout = 20 if plan.get("client_udp") else plan["timeout"]  # server.UDP_TIMEOUT for UDP clients
     slack = 2 * max([x * simhandler.OV_U for x in plan["overshoots"]], default=0.0) + SLACK_U * U
     pat, overlap, at_deadline, fired = model(rec, timeout, simloop.T0, slack, ctx, "handler")
     if out.ended != "ok" and out.error is None:
